@@ -31,6 +31,7 @@ def run(ctx):
     total_ops += o
     plans = [
         ("wt", ["--seed", ctx.seed, "--count", 250 if quick else 5000, "--max-ops", 40 if quick else 80, "--reopen-pct", 10]),
+        ("many", ["--seed", ctx.seed + 23, "--count", 6 if quick else 80, "--max-ops", 10, "--many-entries"]),
         ("churn", ["--seed", ctx.seed + 17, "--count", 12 if quick else 150, "--max-ops", 12, "--mini-churn"]),
         ("wtbig", ["--seed", ctx.seed + 11, "--count", 25 if quick else 300, "--max-ops", 40, "--big", "--reopen-pct", 10]),
     ]
